@@ -100,6 +100,7 @@ def generate(seed, batch):
             'mu': 10 ** rng.uniform(0, 4), 'offset': rng.choice([0.0, 0.0, 1e-4, -2e-4]),
             'atype': rng.choice([4, 4, 3]), 'Nxx': rng.choice([0.0, -1.0, -20.0, 5.0]),
         }
+        scen['redefine_mu'] = rng.choice([None, None, 4.0, 0.25])
         if rng.random() < 0.15:
             scen['faults'] = [{'call': 1, 'kind': rng.choice(['ArpackNoConvergence', 'ArpackError', 'MemoryError'])}]
     else:
@@ -113,7 +114,7 @@ def shrink_candidates(scen):
         c = copy.deepcopy(scen)
         c['faults'] = []
         yield c
-    for key, val in (('mass_scale', None), ('cross_path', False), ('reduced_dof', False), ('second_v0', False)):
+    for key, val in (('mass_scale', None), ('cross_path', False), ('reduced_dof', False), ('second_v0', False), ('redefine_mu', None)):
         if scen.get(key) not in (val,):
             c = copy.deepcopy(scen)
             c[key] = val
@@ -346,7 +347,16 @@ def execute(scen):
                 Kd = Kd + obj.calc_kG0(silent=True).toarray()
             active = np.where(np.abs(Kd).sum(axis=0) != 0)[0]
             act_m = np.where(np.abs(Md).sum(axis=0) != 0)[0]
-            ok = len(active) >= 3 and np.array_equal(active, act_m) and eig.is_pd(Kd[np.ix_(active, active)]) \
+            if not np.array_equal(active, act_m):
+                # stiffness and mass of one package model are assembled from the same flags and offsets: amplitudes
+                # with mass but no stiffness (or the converse) make every frequency result of this model meaningless
+                raise Violation('F8-pattern', {'why': 'mass and stiffness matrix of the same package model do not share their active amplitudes',
+                                               'model': scen['model'].get('kind', scen['model'].get('model')),
+                                               'mass_without_stiffness': int(len(np.setdiff1d(act_m, active))),
+                                               'stiffness_without_mass': int(len(np.setdiff1d(active, act_m)))})
+            if np.abs(Kd - Kd.T).max() > 1e-12 * np.abs(Kd).max() or np.abs(Md - Md.T).max() > 1e-12 * np.abs(Md).max():
+                raise Violation('F8-pattern', {'why': 'stiffness or mass matrix of a package model is not symmetric'})
+            ok = len(active) >= 3 and eig.is_pd(Kd[np.ix_(active, active)]) \
                 and eig.is_pd(Md[np.ix_(active, active)])
             if not ok:
                 bump(res['probes'], 'precondition_not_met(K or M not PD on common active amplitudes)')
@@ -406,6 +416,29 @@ def execute(scen):
                     check_result(scen, Kd, Md, active, vals4, vecs4, k, sparse, sort, ref, log, res, tag='(other-start-vector)')
                     bump(res['probes'], 'second_start_vector_checked')
                 seam.scen = scen
+            if scen['src'] == 'model' and scen['impl'] == 'panel' and scen.get('redefine_mu') and obj is not None:
+                # the same Panel analysed again after its density (and ply thickness) was re-defined
+                fac = scen['redefine_mu']
+                scen2 = dict(scen)
+                scen2['model'] = dict(scen['model'])
+                scen2['model']['mu'] = scen['model']['mu'] * fac
+                fresh = build_panel(scen2)
+                K2 = fresh.calc_k0(silent=True).toarray()
+                M2 = fresh.calc_kM(silent=True).toarray()
+                if scen['model']['atype'] == 3:
+                    K2 = K2 + fresh.calc_kG0(silent=True).toarray()
+                obj.mu = scen2['model']['mu']
+                Ka2, Ma2 = K2[np.ix_(active, active)], M2[np.ix_(active, active)]
+                ekm2 = np.linalg.eigvalsh(Ka2 + Ma2)
+                ref2 = {'w': np.sqrt(np.maximum(eigh(Ka2, Ma2, eigvals_only=True), 0.0)), 'mmin': float(np.linalg.eigvalsh(Ma2).min()),
+                        'condKM': float(ekm2.max() / ekm2.min())}
+                try:
+                    vals5, vecs5 = call_impl(scen, None, None, k, sparse, sort, reduced, obj=obj)
+                except Exception as e:
+                    bump(res['exceptions'], 'redefined_' + type(e).__name__)
+                else:
+                    check_result(scen, K2, M2, active, vals5, vecs5, k, sparse, sort, ref2, log, res, tag='(after-redefinition)')
+                    bump(res['probes'], 'redefinition_checked')
             s = scen.get('mass_scale')
             if s and sort and scen['src'] == 'random' and w_ref.min() / np.sqrt(s) > 1e-4:
                 try:
